@@ -6,6 +6,7 @@ import (
 
 	"github.com/vektah/gqlparser/v2/ast"
 
+	"github.com/buildbuildio/pebbles/gqlerrors"
 	"github.com/buildbuildio/pebbles/planner"
 	"github.com/buildbuildio/pebbles/queryer"
 	"github.com/buildbuildio/pebbles/requests"
@@ -223,7 +224,9 @@ func VerifChildrenOrder() {
 	res, err := ex.Execute(&ExecutionContext{QueryPlan: plan, Request: &requests.Request{}, Queryers: qs})
 	outcome := ""
 	if err != nil {
-		outcome = "error: " + err.Error()
+		// everything the client would see of the error: message, path, extensions
+		eb, _ := json.Marshal(gqlerrors.FormatError(err))
+		outcome = "error: " + err.Error() + " " + string(eb)
 		verifAssert(idA == "" || idB == "", "healthy services and usable ids yield no error")
 		verifReach("children failed")
 	} else {
